@@ -57,6 +57,52 @@ fn payload(kind: usize, src: &mut Src) -> Vec<u8> {
             }
             .pipe_encode()
         }
+        11 => {
+            // exactly one complete, well-formed CBOR item of arbitrary shape and nesting depth
+            let depth = *src.pick(&[0usize, 1, 3, 4, 5, 6, 8, 16]);
+            let kind = src.below(4);
+            let v = if kind == 3 { crate::mutate::any_value(src, depth.min(6)) } else { crate::mutate::nest(Value::Uint(0), depth, kind) };
+            refcbor::encode(&v)
+        }
+        12 => {
+            // a complete CTAP2 message wrapped the way transports wrap it: an ISO 7816 APDU with the
+            // NFCCTAP_MSG instruction (short / extended form, with / without Le), a CTAPHID-style
+            // length prefix, or simply repeated. Whatever follows the first byte must not matter.
+            let inner: Vec<u8> = match src.below(4) {
+                0 => vec![0x04],
+                1 => vec![0x0A, 0xA1, 0x01, 0x01],
+                2 => vec![0x08],
+                _ => vec![0x06, 0xA2, 0x01, 0x01, 0x02, 0x01],
+            };
+            let mut p = vec![];
+            match src.below(5) {
+                0 => {
+                    p.extend_from_slice(&[0x10, *src.pick(&[0x00u8, 0x80]), 0x00, inner.len() as u8]);
+                    p.extend_from_slice(&inner);
+                }
+                1 => {
+                    p.extend_from_slice(&[0x10, 0x00, 0x00, inner.len() as u8]);
+                    p.extend_from_slice(&inner);
+                    p.push(0x00);
+                }
+                2 => {
+                    p.extend_from_slice(&[0x10, 0x00, 0x00, 0x00, 0x00, inner.len() as u8]);
+                    p.extend_from_slice(&inner);
+                    if src.bool() {
+                        p.extend_from_slice(&[0x00, 0x00]);
+                    }
+                }
+                3 => {
+                    p.extend_from_slice(&[0x00, inner.len() as u8]);
+                    p.extend_from_slice(&inner);
+                }
+                _ => {
+                    p.extend_from_slice(&inner);
+                    p.extend_from_slice(&inner);
+                }
+            }
+            p
+        }
         9 => {
             // trailing data up to and beyond the maximum message size (total 7609 / 7610 / far more)
             let n = *src.pick(&[7607usize, 7608, 7609, 7610, 9000, 20_000, 70_000]);
@@ -69,7 +115,7 @@ fn payload(kind: usize, src: &mut Src) -> Vec<u8> {
         }
     }
 }
-const PAYLOAD_KINDS: usize = 11;
+const PAYLOAD_KINDS: usize = 13;
 
 trait PipeEncode {
     fn pipe_encode(self) -> Vec<u8>;
@@ -226,7 +272,7 @@ pub fn gens() -> Vec<Gen> {
     vec![G_BYTE, G_TABLE, G_CONCRETE]
 }
 
-pub const RULE: &str = "Exhaustive over all 256 first bytes x 11 payload classes (a credential-management parameter map with a member removed at some level / a value of another type / empty; very long trailing data up to 70 000 bytes; empty; the valid payload of each of the five parameter-bearing commands; truncated CBOR; malformed CBOR; random bytes), with proptest supplying the payload values; plus one whole-table case checking pairwise distinctness of the operations of all recognised bytes. Oracle: the specification table (assigned = 01,02,04,06,07,08,09,0A,0B,0C,0D,40,41; vendor = 0x42..0x7F): Operation::try_from is Ok exactly on assigned+vendor and converts back to the same byte; VendorOperation::try_from accepts exactly 0x40..0x7F; parameter-less commands decode from their byte alone whatever follows; 0x41||p and 0x0A||p decode identically; 09/0D/40 and every unassigned byte give InvalidCommand whatever follows. Every case is non-trivial (each byte/payload pair is a distinct table probe).";
+pub const RULE: &str = "Exhaustive over all 256 first bytes x 13 payload classes (exactly one well-formed CBOR item of arbitrary shape and depth; a complete CTAP2 message wrapped as an NFCCTAP_MSG APDU / length-prefixed / repeated; a credential-management parameter map with a member removed at some level / a value of another type / empty; very long trailing data up to 70 000 bytes; empty; the valid payload of each of the five parameter-bearing commands; truncated CBOR; malformed CBOR; random bytes), with proptest supplying the payload values; plus one whole-table case checking pairwise distinctness of the operations of all recognised bytes. Oracle: the specification table (assigned = 01,02,04,06,07,08,09,0A,0B,0C,0D,40,41; vendor = 0x42..0x7F): Operation::try_from is Ok exactly on assigned+vendor and converts back to the same byte; VendorOperation::try_from accepts exactly 0x40..0x7F; parameter-less commands decode from their byte alone whatever follows; 0x41||p and 0x0A||p decode identically; 09/0D/40 and every unassigned byte give InvalidCommand whatever follows. Every case is non-trivial (each byte/payload pair is a distinct table probe).";
 pub const ASSUMPTIONS: &[&str] = &["the assigned-code table is transcribed from CTAP 2.1 section 6 and the FIDO prototype codes 0x40/0x41"];
 
 pub fn run(ctx: &mut Ctx) {
@@ -244,6 +290,6 @@ pub fn run(ctx: &mut Ctx) {
         ctx.random(&G_BYTE, &[b, idx(10, PAYLOAD_KINDS)], ctx.t(1500, 30_000), 700);
     }
     ctx.enumerate(&G_TABLE, std::iter::once(vec![]));
-    ctx.exhaustive.push("all 256 command bytes x 11 payload classes; all pairs of recognised bytes".into());
+    ctx.exhaustive.push("all 256 command bytes x 13 payload classes; all pairs of recognised bytes".into());
     ctx.require(&["byte-class:assigned", "byte-class:vendor", "byte-class:unassigned", "table-injectivity"]);
 }
